@@ -41,6 +41,10 @@ type Sect struct {
 	Accs map[Access]bool
 	Send bool // channel send while here
 	Ext  bool // call through interface
+	// AtomW counts the writing operations (Add, Store, Swap, CompareAndSwap, And, Or) this section performs on
+	// fields of sync/atomic types: two of them inside ONE locked section are two separately visible steps for a
+	// method that reads the field without the lock (flag `twoAtomicWritesInLock`, C02)
+	AtomW int
 }
 
 type Path struct {
@@ -120,14 +124,14 @@ func (s *state) clone() *state {
 		for a := range x.Accs {
 			n.Accs[a] = true
 		}
-		n.Send, n.Ext = x.Send, x.Ext
+		n.Send, n.Ext, n.AtomW = x.Send, x.Ext, x.AtomW
 		c.sects = append(c.sects, n)
 	}
 	c.cur = newSect(s.cur.Mode)
 	for a := range s.cur.Accs {
 		c.cur.Accs[a] = true
 	}
-	c.cur.Send, c.cur.Ext = s.cur.Send, s.cur.Ext
+	c.cur.Send, c.cur.Ext, c.cur.AtomW = s.cur.Send, s.cur.Ext, s.cur.AtomW
 	c.deferred = append(c.deferred, s.deferred...)
 	return c
 }
@@ -612,6 +616,22 @@ func (a *analyzer) call(states []*state, c *ast.CallExpr) []*state {
 			callee, _ = sel.Obj().(*types.Func)
 			recvExpr = f.X
 			states = a.expr(states, f.X)
+			// <field of a sync/atomic type>.<writing method>(…): count the writes a locked section performs
+			if inner, ok := f.X.(*ast.SelectorExpr); ok {
+				if isel := a.info.Selections[inner]; isel != nil && isel.Kind() == types.FieldVal && isAtomicType(isel.Obj().Type()) {
+					switch f.Sel.Name {
+					case "Add", "Store", "Swap", "CompareAndSwap", "And", "Or":
+						for _, s := range states {
+							if modeKey(s.cur.Mode) != "" {
+								s.cur.AtomW++
+								if s.cur.AtomW >= 2 {
+									s.flags["twoAtomicWritesInLock"] = true
+								}
+							}
+						}
+					}
+				}
+			}
 			if _, isIface := sel.Recv().Underlying().(*types.Interface); isIface {
 				// a call through an interface-typed field (the trie's result queue `t.q`): the object behind it is
 				// part of the guarded state (properties.jsonl lists Trie.q as guarded by Trie.mu), so the call is an
